@@ -625,6 +625,11 @@ class ExprMixin(CallMixin):
 
     def ev_Yield(self, e, env, module):
         v = self.eval(e.value, env, module) if e.value else NONE
+        if "__cm_body__" in env:
+            # the single yield of a @contextmanager generator: the body of the `with` statement runs here
+            cb = env.pop("__cm_body__")
+            cb(v)
+            return NONE
         self.list_append(env["__yield__"], v)
         return NONE
 
